@@ -125,8 +125,10 @@ def build_simple_pt(case):
             from scipy.linalg import expm
             x = rng.normal(size=(d * d, d * d))
             u = expm(1e-7j * (x + x.T))
-        kw["transform_in"] = u
-        kw["transform_out"] = u.conj().T
+        if case["transforms"] != "out_only":
+            kw["transform_in"] = u
+        if case["transforms"] != "in_only":
+            kw["transform_out"] = u.conj().T
     if case.get("named"):
         style = case["tseed"] % 4
         kw["name"] = ["pt-%d" % (case["tseed"] % 1000),
@@ -144,7 +146,13 @@ def build_simple_pt(case):
             left, right, d * d, d * d)
         t = (rng.normal(size=shape) + 1j * rng.normal(size=shape)) / chi
         pt.set_mpo_tensor(k, t)
-    if case.get("caps", True):
+    if case.get("caps", True) == "custom":
+        # caps set by hand, including a closing cap that is not [1.0]
+        for k in range(n + 1):
+            size = 1 if (k == 0 or k == n) else chi
+            pt.set_cap_tensor(k, rng.normal(size=size)
+                              + 1j * rng.normal(size=size))
+    elif case.get("caps", True):
         pt.compute_caps()
     return pt
 
